@@ -198,6 +198,7 @@ def run(ctx, rep):
     rep.section(b3, ctx, rep, T)
     rep.section(b6, ctx, rep, T)
     rep.section(b7, ctx, rep, T)
+    rep.section(b8, ctx, rep)
     # B4: truncating rewrite (shared with C17 W5)
     sub = core.Report('C10', rep.tier)
     c17.run(ctx, sub)
@@ -431,6 +432,28 @@ def b7(ctx, rep, T):
             if facet not in bad:
                 rep.ok('B7', f'{be}:{facet}-key-as-identifier', 'key text outside string literals is made an identifier first (or never used there)')
     rep.floor('B7', 'template positions fed by the serde tag/content key', n, 20)
+
+
+def b8(ctx, rep):
+    """B8: the names a backend spells identifiers from (`Id.original` — Go's exported field names, Python's snake-cased fields —
+    and the input of the rename rule) are the Rust identifier *without* its raw prefix: `r#type` must arrive as `type`
+    (then keyword-escaped per language), never as `r#type`, whose `#` is not an identifier character anywhere."""
+    from .. import parser_rules as pr
+    f = ctx.fn('get_ident', file='parser.rs')
+    site = {'file': f['file'], 'line': f['line']}
+    ids = [s for s in f['structs'] if s['path'].split('::')[-1] == 'Id']
+    if len(ids) != 1:
+        raise core.Incomplete('B8: get_ident: Id construction not found')
+    flds = ids[0]['v']['fields']
+    p0 = f['params'][0]['name']
+    rep.check(pr.raw_prefix_removed(flds.get('original'), p0), 'B8', 'Id.original:raw-prefix-removed', 'identifier with r# removed',
+              f"get_ident: Id.original = `{vt.show(flds.get('original'))[:100]}` keeps the raw prefix: for a field written `r#type` Go emits `R#type string` and Python `r#type: str` — `#` is not an identifier character, the file does not parse", site)
+    ins = [vt.unvar(n) for n in vt.walk(flds.get('renamed')) if isinstance(vt.unvar(n), dict) and vt.unvar(n).get('k') == 'call' and vt.unvar(n).get('f') == 'rename_all_to_case' and vt.unvar(n).get('args')]
+    for i, n in enumerate(ins):
+        rep.check(pr.raw_prefix_removed(n['args'][0], p0), 'B8', f'rename-input#{i}:raw-prefix-removed', 'rename rule applied to the identifier with r# removed',
+                  f"get_ident: the rename rule is applied to `{vt.show(n['args'][0])[:100]}`, which keeps the raw prefix: `r#type` becomes a property / case name containing `#`", site)
+    if not ins:
+        raise core.Incomplete('B8: no rename_all_to_case application found in the value of Id.renamed')
 
 
 def b3(ctx, rep, T):
